@@ -61,6 +61,14 @@ let () =
     let ok = simple && doc_time_simple root
              && (match res with Ok d -> List.for_all (fun it -> in_range it.ti_st && in_range it.ti_en) d.td_items | _ -> true) in
     if ok then pres ptdoc res else (Buffer.add_string b "NS "; pres (fun _ -> ()) res));
+  register "xmlparse" (fun r ->
+    match xml_parse (rstr r) with
+    | Some t -> pint 0; pxnode t
+    | None -> pint 1);
+  register "ttmlreadbytes" (fun r ->
+    match xml_parse (rstr r) with
+    | Some t -> pres ptdoc (read_ttml t)
+    | None -> Buffer.add_string b "NOPARSE");
   register "ttmlwritetree" (fun r ->
     let indent = rstr r in
     let d = rtdoc r in
